@@ -24,7 +24,7 @@ theorem ok_nochange {op : Op} {out : Out} {st' : St} (hinv : Inv st g)
     (hshape := Or.inl hdb)
     (hends := by intro s0 h; cases h)
     (hrem := removed_same (by simp [obsOf, hpending]))
-    (hadd := added_same (by simp [obsOf, hpending]))
+    (hadd := added_same (by simp [obsOf, hpending])) (hgone := gone_none rfl)
     (hreq := request_nil hem)
     (hstat := hstat) (hnow := hnow) (hlast := hlast) (hstep := hstep)
     (hpend := pendInv_sub hinv rfl (fun _ _ h => by rw [hpending] at h; exact h) (fun _ _ => by rw [hheap]) hstep)
@@ -49,7 +49,7 @@ theorem ok_login (hinv : Inv st g) (l : Login) : StepOk cfg st g (.login l) := b
       (hread := rfl)
       (hshape := Or.inr (Or.inr (Or.inl ⟨l, rfl, hk, rfl, rfl, rfl⟩)))
       (hends := by intro s0 _ h; cases h)
-      (hrem := removed_same rfl) (hadd := added_same rfl) (hreq := request_nil rfl)
+      (hrem := removed_same rfl) (hadd := added_same rfl) (hgone := gone_none rfl) (hreq := request_nil rfl)
       (hstat := rfl) (hnow := rfl) (hlast := rfl) (hstep := rfl)
       (hpend := pendInv_sub hinv rfl (fun _ _ h => h) (fun _ _ => rfl) rfl)
   · exact ok_read (out := .rejected) hinv (by simp [step, stepCore, doLogin, hk]) (by simp [planOf, hk]) rfl rfl rfl rfl rfl
@@ -63,7 +63,7 @@ theorem ok_reset (hinv : Inv st g) (s : Subj) (i : Idp) : StepOk cfg st g (.rese
     (hread := rfl)
     (hshape := Or.inr (Or.inr (Or.inr ⟨s, i, rfl, rfl, rfl, rfl⟩)))
     (hends := by intro s0 _ h; cases h)
-    (hrem := removed_same rfl) (hadd := added_same rfl) (hreq := request_nil rfl)
+    (hrem := removed_same rfl) (hadd := added_same rfl) (hgone := gone_none rfl) (hreq := request_nil rfl)
     (hstat := rfl) (hnow := rfl) (hlast := rfl) (hstep := rfl)
     (hpend := pendInv_sub hinv rfl (fun _ _ h => h) (fun _ _ => rfl) rfl)
 
@@ -127,14 +127,14 @@ theorem ok_slo (hinv : Inv st g) (named current : Subj) (b : Bind) (j : Idp) :
           (hstepEq := by simp [step, stepCore, handleRequest, localLogout, hd, hc])
           (hp := hplan _) (hread := rfl) (hshape := Or.inl rfl)
           (hends := by intro s0 _ h; cases h)
-          (hrem := removed_same rfl) (hadd := added_same rfl) (hreq := request_nil rfl)
+          (hrem := removed_same rfl) (hadd := added_same rfl) (hgone := gone_none rfl) (hreq := request_nil rfl)
           (hstat := rfl) (hnow := rfl) (hlast := rfl) (hstep := rfl)
           (hpend := pendInv_sub hinv rfl (fun _ _ h => h) (fun _ _ => rfl) rfl)
       · exact step_assemble (st' := { st with stepNo := st.stepNo + 1 }) (out := .error .noresponse []) _ hinv
           (hstepEq := by simp [step, stepCore, handleRequest, localLogout, hd, hc])
           (hp := hplan _) (hread := rfl) (hshape := Or.inl rfl)
           (hends := by intro s0 _ h; cases h)
-          (hrem := removed_same rfl) (hadd := added_same rfl) (hreq := request_nil rfl)
+          (hrem := removed_same rfl) (hadd := added_same rfl) (hgone := gone_none rfl) (hreq := request_nil rfl)
           (hstat := rfl) (hnow := rfl) (hlast := rfl) (hstep := rfl)
           (hpend := pendInv_sub hinv rfl (fun _ _ h => h) (fun _ _ => rfl) rfl)
     | some db' =>
@@ -148,7 +148,7 @@ theorem ok_slo (hinv : Inv st g) (named current : Subj) (b : Bind) (j : Idp) :
           (hp := hplan _) (hread := rfl)
           (hshape := Or.inr (Or.inl ⟨named, rfl, Or.inr rfl, rfl⟩))
           (hends := by intro s0 _ h; cases h)
-          (hrem := removed_same rfl) (hadd := added_same rfl) (hreq := request_nil rfl)
+          (hrem := removed_same rfl) (hadd := added_same rfl) (hgone := gone_none rfl) (hreq := request_nil rfl)
           (hstat := by simp [statusOk, obsOf, hgone]) (hnow := rfl) (hlast := rfl) (hstep := rfl)
           (hpend := pendInv_sub hinv rfl (fun _ _ h => h) (fun _ _ => rfl) rfl)
       · exact step_assemble (st' := { st with db := Dict.del named st.db, stepNo := st.stepNo + 1 })
@@ -157,7 +157,7 @@ theorem ok_slo (hinv : Inv st g) (named current : Subj) (b : Bind) (j : Idp) :
           (hp := hplan _) (hread := rfl)
           (hshape := Or.inr (Or.inl ⟨named, rfl, Or.inr rfl, rfl⟩))
           (hends := by intro s0 _ h; cases h)
-          (hrem := removed_same rfl) (hadd := added_same rfl) (hreq := request_nil rfl)
+          (hrem := removed_same rfl) (hadd := added_same rfl) (hgone := gone_none rfl) (hreq := request_nil rfl)
           (hstat := rfl) (hnow := rfl) (hlast := rfl) (hstep := rfl)
           (hpend := pendInv_sub hinv rfl (fun _ _ h => h) (fun _ _ => rfl) rfl)
   · by_cases hc : canRespond cfg j b = true
@@ -299,7 +299,8 @@ theorem ok_loop {op : Op} {P0 : List (ReqId × Rec)} {o : Nat} {es : List Idp} {
     (hP0k : ∀ rid ∈ Dict.keys st.pending, rid ∈ Dict.keys P0 ∨ p.consumed = some rid)
     (hold : ∀ rid rec, Dict.get? rid P0 = some rec → rec.cell = o → rec.subj = s ∧ rec.expire = expire)
     (hnotslo : ∀ a b c d, op ≠ .slo a b c d) (hnow : nowAfter st op = st.now)
-    (hread : ∀ out, readOk g (readCheck op) op out = true) : StepOk cfg st g op := by
+    (hread : ∀ out, readOk g (readCheck op) op out = true)
+    (hgone : ∀ rid, p.consumed = some rid → Dict.get? rid P0 = none ∧ rid.step < st.stepNo) : StepOk cfg st g op := by
   obtain ⟨ls, out, hdo, hpost, hem⟩ := doLogout_live (cfg := cfg)
     (st := { now := st.now, db := st.db, pending := P0, heap := Dict.set o es st.heap, last := st.last, stepNo := st.stepNo })
     (s := s) (cell := o) (expire := expire) hdl
@@ -310,9 +311,18 @@ theorem ok_loop {op : Op} {P0 : List (ReqId × Rec)} {o : Nat} {es : List Idp} {
     (hends := fun s0 _ he => absurd he hexp)
     (hrem := removed_of_post (st := st) hpost hP0k rfl)
     (hadd := added_of_post (st := st) hinv hpost hP0 rfl (by simp [hopId]) (fun _ h => by rw [hall]; exact h))
+    (hgone := ?_)
     (hreq := request_of_post (st := st) hinv hpost hem hsoi (fun _ h => by rw [hall]; exact h))
     (hstat := statusOk_not_slo hnotslo) (hnow := hnow.symm) (hlast := rfl) (hstep := rfl)
     (hpend := ?_)
+  · cases hc : p.consumed with
+    | none => exact gone_none hc
+    | some rid =>
+      obtain ⟨h1, h2⟩ := hgone rid hc
+      refine gone_of_not_mem hc ?_
+      simp only
+      rw [hpost.keep rid (by omega)]
+      exact h1
   · rw [hops]
     exact pendInv_loop (st := st) hinv ho hopId hP0 hpost rfl rfl rfl hgop hold
 
@@ -337,7 +347,7 @@ theorem ok_logout (hinv : Inv st g) (s : Subj) (expire : Option Int) : StepOk cf
         (hread := rfl)
         (hshape := Or.inr (Or.inl ⟨s, rfl, Or.inl rfl, rfl⟩))
         (hends := by intro s0 h _; cases h; simp [Dict.mem_keys_del])
-        (hrem := removed_same rfl) (hadd := added_same rfl) (hreq := request_nil rfl)
+        (hrem := removed_same rfl) (hadd := added_same rfl) (hgone := gone_none rfl) (hreq := request_nil rfl)
         (hstat := rfl) (hnow := rfl) (hlast := rfl) (hstep := rfl)
         (hpend := pendInv_sub hinv rfl (fun _ _ h => h) (fun c hc => heapGet_below hc) rfl)
     | false =>
@@ -349,6 +359,7 @@ theorem ok_logout (hinv : Inv st g) (s : Subj) (expire : Option Int) : StepOk cf
         (gop' := { subj := s, remaining := Dict.keys m, expire := expire, soap := false })
         hinv hdl ?_ ?_ rfl ?_ (by simp [hinv.stepNo]) rfl (by simp [hinv.stepNo]) ⟨rfl, rfl, rfl⟩ (Nat.le_refl _)
         (fun _ _ h => h) (fun _ h => Or.inl h) ?_ (by intro a b c d h; cases h) rfl (fun _ => rfl)
+        (by intro rid h; cases h)
       · simp [step, stepCore, globalLogout, hm, lastAfter]
         exact doLogout_last _ _ _ _ _
       · intro out
@@ -509,7 +520,8 @@ theorem ok_resp (hinv : Inv st g) (sel : Sel) (issuer : Option Idp) : StepOk cfg
           exact step_assemble (st' := _) (out := .done) p hinv hstepEq (hp _) (hread := rfl)
             (hshape := Or.inr (Or.inl ⟨rec.subj, hsoi, hexp, rfl⟩))
             (hends := by intro s0 h _; rw [hsoi] at h; cases h; simp [Dict.mem_keys_del])
-            (hrem := removed_del hcons rfl) (hadd := added_del rfl) (hreq := request_nil rfl)
+            (hrem := removed_del hcons rfl) (hadd := added_del rfl)
+            (hgone := gone_of_not_mem hcons (Dict.get?_del_self _ _)) (hreq := request_nil rfl)
             (hstat := statusOk_resp) (hnow := rfl) (hlast := hlastA.symm) (hstep := rfl)
             (hpend := hpendInv _ rfl rfl rfl)
         | none =>
@@ -518,7 +530,8 @@ theorem ok_resp (hinv : Inv st g) (sel : Sel) (issuer : Option Idp) : StepOk cfg
           exact step_assemble (st' := _) (out := .error .key []) p hinv hstepEq (hp _) (hread := rfl)
             (hshape := Or.inl rfl)
             (hends := by intro s0 h _; rw [hsoi] at h; cases h; exact hnk)
-            (hrem := removed_del hcons rfl) (hadd := added_del rfl) (hreq := request_nil rfl)
+            (hrem := removed_del hcons rfl) (hadd := added_del rfl)
+            (hgone := gone_of_not_mem hcons (Dict.get?_del_self _ _)) (hreq := request_nil rfl)
             (hstat := statusOk_resp) (hnow := rfl) (hlast := hlastA.symm) (hstep := rfl)
             (hpend := hpendInv _ rfl rfl rfl)
       · by_cases hxL : x ∈ heapGet st.heap rec.cell
@@ -575,7 +588,8 @@ theorem ok_resp (hinv : Inv st g) (sel : Sel) (issuer : Option Idp) : StepOk cfg
               exact step_assemble (st' := _) (out := .timeout) _ hinv hstepEq (hp _) (hread := rfl)
                 (hshape := Or.inr (Or.inl ⟨rec.subj, by rw [h5], Or.inl rfl, rfl⟩))
                 (hends := by intro s0 h _; simp only [h5] at h; cases h; simp [Dict.mem_keys_del])
-                (hrem := removed_del rfl rfl) (hadd := added_del rfl) (hreq := request_nil rfl)
+                (hrem := removed_del rfl rfl) (hadd := added_del rfl)
+                (hgone := gone_of_not_mem rfl (Dict.get?_del_self _ _)) (hreq := request_nil rfl)
                 (hstat := statusOk_resp) (hnow := rfl) (hlast := hlastA.symm) (hstep := rfl)
                 (hpend := hpi _ rfl (by rw [hrem7]) rfl)
             | none =>
@@ -590,7 +604,8 @@ theorem ok_resp (hinv : Inv st g) (sel : Sel) (issuer : Option Idp) : StepOk cfg
               exact step_assemble (st' := _) (out := .error .key []) _ hinv hstepEq (hp _) (hread := rfl)
                 (hshape := Or.inl rfl)
                 (hends := by intro s0 h _; simp only [h5] at h; cases h; exact hnk)
-                (hrem := removed_del rfl rfl) (hadd := added_del rfl) (hreq := request_nil rfl)
+                (hrem := removed_del rfl rfl) (hadd := added_del rfl)
+                (hgone := gone_of_not_mem rfl (Dict.get?_del_self _ _)) (hreq := request_nil rfl)
                 (hstat := statusOk_resp) (hnow := rfl) (hlast := hlastA.symm) (hstep := rfl)
                 (hpend := hpi _ rfl (by rw [hrem7]) rfl)
           | false =>
@@ -603,6 +618,7 @@ theorem ok_resp (hinv : Inv st g) (sel : Sel) (issuer : Option Idp) : StepOk cfg
               (gop' := { gop with remaining := gop.remaining.erase x })
               hinv hdl ?_ ?_ (by rw [h5]) (by simp) rfl rfl rfl ⟨rfl, h5, h6⟩ (Nat.le_of_lt h2) hsubP ?_ hold
               (by intro a b c d h; cases h) rfl (fun _ => rfl)
+              (by intro r h; cases h; exact ⟨Dict.get?_del_self _ _, h1⟩)
             · rw [hstepEq, hlastA, hrem7]
             · intro out
               rw [hplan out]
@@ -623,7 +639,8 @@ theorem ok_resp (hinv : Inv st g) (sel : Sel) (issuer : Option Idp) : StepOk cfg
               ops := g.ops } hinv hstepEq
             (by rw [hplan]; simp only [hxr, if_false]) (hread := rfl) (hshape := Or.inl rfl)
             (hends := by intro s0 _ h; cases h)
-            (hrem := removed_del rfl rfl) (hadd := added_del rfl) (hreq := request_nil rfl)
+            (hrem := removed_del rfl rfl) (hadd := added_del rfl)
+                (hgone := gone_of_not_mem rfl (Dict.get?_del_self _ _)) (hreq := request_nil rfl)
             (hstat := statusOk_resp) (hnow := rfl) (hlast := hlastA.symm) (hstep := rfl)
             (hpend := pendInv_sub hinv rfl hsubP (fun _ _ => rfl) rfl)
 
